@@ -23,6 +23,20 @@ T  larger seeded-random instances (<= 8 tasks, two resource names, several
    strategies, ties) -> call records -> the same TLC evaluation.
 X  (thorough, notes only) pools with several workers, outside the gating bound.
 
+Realisation (round 4).  All times of an instance are microseconds (the bounds are
+scaled so that they are multiples of 1000 / 10^6); the real objects carry every
+single time - now, deadline, release, each strategy's runtime, the executed time -
+in its own EventTime unit (US / MS / S, any unit that divides the value, seeded
+choice per field), and a worker may list the quantity of a resource name under two
+ids ({r1:c0:1, r1:c1:1}), the occupied part spread over the two (held by id).  The
+realisation is not part of the instance TLC sees: what the real objects carry is read
+back (`seen`, `listed`, `before` / `after` per resource instance) and
+Greedy!RealisationOK converts it to the instance's microseconds / capacities /
+availabilities; Greedy!UnitStats counts the records whose unit-blind keys (bare
+EventTime.time) order or plan differently.  `side.remaining` (Task.remaining_time is
+the statement's remaining time) is a counted note like the other side clauses: a wrong
+remaining time shows as an LSF inversion, judged by NoInversion.
+
 Only `C13.no_inversion` produces a VIOLATION.  `C13.plan_eq`, `C13.order_key`,
 `side.*` are stricter than the statement: they are counted (`resync`) and shown
 in the detail of a no_inversion violation, never reported on their own.
@@ -32,13 +46,15 @@ from __future__ import annotations
 import contextlib
 import itertools
 import json
+import multiprocessing as mp
 import os
 import re
+import signal
 import tempfile
 import time
 
 from . import mcgen, tlaval, tlc
-from .common import CheckResult, Scratch, parallel, rng
+from .common import CheckResult, Scratch, rng
 from .mcgen import Raw
 from .realobj import ns, us
 
@@ -55,8 +71,17 @@ STAT_NAMES = [
     "pool_other_than_first_used",
     "all_placed",
     "unplaced_task_fits_initial_cluster",
+    "some_time_not_in_us",
+    "unit_blind_order_differs",
+    "unit_blind_plan_inverts",
+    "multi_instance_worker",
     "answer_equals_plan",
 ]
+RECORD_ONLY = ("some_time_not_in_us", "unit_blind_order_differs", "unit_blind_plan_inverts", "multi_instance_worker")
+MS, SEC = 1000, 10**6
+UNIT_US = {"US": 1, "MS": MS, "S": SEC}
+# time scale of the slices of the bound: microseconds per unit of the small numbers written in slices()
+SCALE = {"edf": MS, "fifo": SEC, "lsf": MS, "pre": SEC, "fit": MS}
 
 
 # ---------------------------------------------------------------------------
@@ -93,9 +118,24 @@ def _pool_seqs(avs, lens, cap=None):
     return out
 
 
+def _scale_strats(sl, f):
+    if isinstance(sl, dict):
+        return {"strats": _scale_strats(sl["strats"], f), "ran": dict(sl["ran"], done=sl["ran"]["done"] * f)}
+    return [{"dem": list(x["dem"]), "rt": x["rt"] * f} for x in sl]
+
+
+def scale_bound(b, f):
+    """the same bound with every time multiplied by f (microseconds per unit)"""
+    out = dict(b, Now=b["Now"] * f, Scale=f)
+    out["KeyProfiles"] = [dict(kp, deadline=kp["deadline"] * f, release=kp["release"] * f) for kp in b["KeyProfiles"]]
+    out["StratLists"] = [_scale_strats(sl, f) for sl in b["StratLists"]]
+    return out
+
+
 def slices(size: str) -> dict:
     """The bounds.  'small': enumerated by TLC and replayed on the real code (quick: a
-    sample).  'large' (thorough): enumerated by TLC, sampled for the replay."""
+    sample).  'large' (thorough): enumerated by TLC, sampled for the replay.
+    Times are written in small numbers here and scaled to microseconds by SCALE."""
     big = size == "large"
     n = 4 if big else 3
     s = {}
@@ -138,7 +178,7 @@ def slices(size: str) -> dict:
         prof += [{"deadline": 7, "release": 1, "graph": 1}]
     three = [[_pool(a), _pool(b), _pool(c)] for a, b, c in (([1, 0], [0, 1], [1, 1]), ([0, 1], [0, 1], [2, 0]), ([0, 0], [1, 0], [1, 2]))]
     s["fit"] = dict(Kinds=list(KINDS), Now=2, MaxTasks=3, KeyProfiles=prof, StratLists=lists, PoolSeqs=_pool_seqs(avs, (1, 2)) + three)
-    return s
+    return {tag: scale_bound(b, SCALE[tag]) for tag, b in s.items()}
 
 
 def shapes_of(b):
@@ -299,6 +339,8 @@ def _enum_job(tag, b, first, invariants, coverage=False):
         extra = REG_INIT
         if tag.endswith("/0"):
             extra += 'ASSUME VectorModelOK(<<"r1", "r2">>, 2)\n'
+        if tag.endswith("/pre/0"):
+            extra += 'ASSUME VectorModelSplitOK(<<"r1", "r2">>, 3)\n'
         mod, cf = mcgen.write_mc(
             scratch, "Greedy", constants(b, first), name="MC_GreedyEnum", init_next=("EnumInit", "NoNext"),
             invariants=invariants, extra_defs=extra, postcondition="Post",
@@ -363,7 +405,7 @@ def absorb_enum(res, outs):
         for p in parts:
             if p["stats"]:
                 st = [a + b for a, b in zip(st, p["stats"])]
-        d = dict(zip(STAT_NAMES[:-1], st[:-1]))
+        d = {k: v for k, v in zip(STAT_NAMES[:-1], st[:-1]) if k not in RECORD_ONLY}
         d["instances"] = d.pop("records")
         res.extra.setdefault("enumeration_stats", {})[tag] = d
         counts[tag] = agg.distinct
@@ -376,6 +418,104 @@ def absorb_enum(res, outs):
                     key=f"spec:{tag}:{p['violation']}",
                 )
     return counts
+
+
+# ---------------------------------------------------------------------------
+# realisation of an instance: the EventTime unit of every single time, the resource
+# instances a worker lists per name.  Not part of the instance (TLC: microseconds,
+# one quantity per name); Greedy!RealisationOK ties what is read back to the instance.
+
+
+def _split(c, r, whole):
+    """the quantities of the instances that list capacity c of one name"""
+    if c == 0:
+        return r.choice(([], [0], [0, 0]))
+    if whole or r.random() < 0.4:
+        return [c]
+    a = r.randint(0, c)
+    return [a, c - a]
+
+
+def realisation(inst, r):
+    """seeded choice of {"units": {"now", "tasks": [{"deadline", "release", "rt": [..], "done",
+    "end"}]}, "split": per pool / worker / name [quantity per instance], "occ": likewise, the
+    occupied part of each instance}.  A unit is eligible for a time if it divides it."""
+    plain = r.random() < 0.08  # every time in microseconds (the only class of the earlier rounds)
+
+    def u(v):
+        return "US" if plain else r.choice([x for x, f in UNIT_US.items() if v % f == 0])
+
+    tasks = []
+    for t in inst["tasks"]:
+        ran = t.get("ran", FRESH)
+        tasks.append({
+            "deadline": u(t["deadline"]), "release": u(t["release"]), "rt": [u(x["rt"]) for x in t["strats"]],
+            "done": u(ran["done"]), "end": u(t["release"] + ran["done"]),
+        })
+    whole = r.random() < 0.2  # every worker lists one instance per name
+    split = [[[_split(c, r, whole) for c in cap] for cap in p["cap"]] for p in inst["pools"]]
+    return {"units": {"now": u(inst["now"]), "tasks": tasks}, "split": split, "occ": _occupied(inst, split, r)}
+
+
+def _occupied(inst, split, r=None):
+    """how the occupied quantity cap - av of every name is spread over its instances (r = None:
+    first fit).  A preemptive instance has no occupants besides its running tasks."""
+    out = []
+    for p, sp in zip(inst["pools"], split):
+        out.append([])
+        for cap, av, parts_of in zip(p["cap"], p["av"], sp):
+            row = []
+            for c, a, parts in zip(cap, av, parts_of):
+                occ = 0 if inst.get("preemptive") else c - a
+                if len(parts) == 2:
+                    lo, hi = max(0, occ - parts[1]), min(parts[0], occ)
+                    x = hi if r is None else r.randint(lo, hi)
+                    row.append([x, occ - x])
+                else:
+                    row.append([occ] * len(parts))
+            out[-1].append(row)
+    return out
+
+
+def default_realisation(inst):
+    """everything in microseconds, one resource instance per name (earlier rounds, old replay files)"""
+    tasks = [{"deadline": "US", "release": "US", "rt": ["US"] * len(t["strats"]), "done": "US", "end": "US"} for t in inst["tasks"]]
+    split = [
+        [[[c] if c > 0 or (pi + wi + k) % 2 == 0 else [] for k, c in enumerate(cap)] for wi, cap in enumerate(p["cap"])]
+        for pi, p in enumerate(inst["pools"])
+    ]
+    return {"units": {"now": "US", "tasks": tasks}, "split": split, "occ": _occupied(inst, split)}
+
+
+def et(v, unit):
+    """the EventTime that denotes v microseconds in the given unit"""
+    N = ns()
+    if v % UNIT_US[unit]:
+        raise tlc.TLCMachineryError(f"{v}us is not a whole number of {unit}")
+    return N.EventTime(v // UNIT_US[unit], getattr(N.EventTime.Unit, unit))
+
+
+def _nu(e):
+    return {"n": e.time, "u": e.unit.name}
+
+
+def scale_instance(inst, f, r=None):
+    """every time of the instance multiplied by f.  With r, a quarter of the deadlines, runtimes
+    and (where release + done <= now allows) releases get half a unit more: values that only a
+    finer unit expresses (2ms next to 1500us)."""
+
+    def j(ok=True):
+        return f // 2 if r is not None and f > 1 and ok and r.random() < 0.25 else 0
+
+    now = inst["now"] * f
+    tasks = []
+    for t in inst["tasks"]:
+        ran = t.get("ran", FRESH)
+        strats = [{"dem": list(x["dem"]), "rt": x["rt"] * f + j()} for x in t["strats"]]
+        done, rel = ran["done"] * f, t["release"] * f
+        rel += j(rel + f // 2 + done <= now)
+        tasks.append(dict(t, deadline=t["deadline"] * f + j(), release=rel, strats=strats, ran=dict(ran, done=done)))
+    return dict(inst, now=now, tasks=tasks)
 
 
 # ---------------------------------------------------------------------------
@@ -405,54 +545,81 @@ def _request(dem):
     return N.Resources(resource_vector={N.Resource(name=RES_NAMES[k], _id="any"): q for k, q in enumerate(dem) if q > 0})
 
 
-def build_pools(inst):
-    """Real WorkerPools: each worker owns cap[k] of resource name k (one instance per
-    name); a dummy task holds cap - av."""
+def build_pools(inst, real):
+    """Real WorkerPools: each worker owns cap[k] of resource name k, listed as the
+    instances real["split"] says (two instances of a name: ids c0, c1); a dummy task
+    holds cap - av, instance by instance (real["occ"]; requests by id, so that building
+    the instance does not depend on how a wildcard request is spread over instances)."""
     N = ns()
     pools = []
     for pi, p in enumerate(inst["pools"]):
-        workers = []
+        workers, held = [], []
         for wi, cap in enumerate(p["cap"]):
-            vec = {N.Resource(name=RES_NAMES[k]): c for k, c in enumerate(cap) if c > 0 or (pi + wi + k) % 2 == 0}
+            vec, req = {}, {}
+            for k, parts in enumerate(real["split"][pi][wi]):
+                for j, c in enumerate(parts):
+                    rs = N.Resource(name=RES_NAMES[k], _id=f"c{j}" if len(parts) > 1 else None)
+                    vec[rs] = c
+                    if real["occ"][pi][wi][k][j]:
+                        req[N.Resource(name=rs.name, _id=rs.id)] = real["occ"][pi][wi][k][j]
             workers.append(N.Worker(name=f"w{pi}_{wi}", resources=N.Resources(resource_vector=vec)))
+            held.append(req)
         pool = N.WorkerPool(name=f"pool{pi}", workers=workers)
-        for wi, (cap, av) in enumerate(zip(p["cap"], p["av"])):
-            occ = [c - a for c, a in zip(cap, av)]
+        for wi, req in enumerate(held):
             # (a preemptive policy is offered everything that sits on the pools: there the
             # occupants are the instance's own running tasks, placed by build_workload)
-            if any(occ) and not inst.get("preemptive"):
-                st = N.ExecutionStrategy(resources=_request(occ), batch_size=1, runtime=us(1000))
+            if req:
+                st = N.ExecutionStrategy(resources=N.Resources(resource_vector=req), batch_size=1, runtime=us(1000))
                 prof = N.WorkProfile(name=f"occ{pi}_{wi}", execution_strategies=N.ExecutionStrategies([st]))
                 dummy = N.Task(
                     name=f"occ{pi}_{wi}", task_graph="occupants", job=N.Job(name=f"occ{pi}_{wi}", profile=prof),
                     profile=prof, deadline=us(10**6), timestamp=0, release_time=us(0),
                 )
                 if not pool.place_task(dummy, execution_strategy=st, worker_id=workers[wi].id):
-                    raise tlc.TLCMachineryError(f"could not occupy pool {pi} worker {wi} with {occ}")
+                    raise tlc.TLCMachineryError(f"could not occupy pool {pi} worker {wi} with {req}")
         pools.append(pool)
     return pools
 
 
+def listed(pools, nres):
+    """per pool / worker / name the total quantities of the instances the worker lists"""
+    return [[[[q for res, q in w.resources.resources if res.name == RES_NAMES[k]] for k in range(nres)] for w in pool.workers] for pool in pools]
+
+
 def observe(pools, nres):
+    """per pool / worker / name the available quantity of every listed instance (asked by id)"""
     N = ns()
-    probes = [N.Resource(name=RES_NAMES[k], _id="any") for k in range(nres)]
-    return [[[w.resources.get_available_quantity(q) for q in probes] for w in pool.workers] for pool in pools]
+    return [
+        [
+            [
+                [w.resources.get_available_quantity(N.Resource(name=res.name, _id=res.id)) for res, _ in w.resources.resources if res.name == RES_NAMES[k]]
+                for k in range(nres)
+            ]
+            for w in pool.workers
+        ]
+        for pool in pools
+    ]
 
 
-def build_workload(inst, pools):
+def build_workload(inst, pools, real):
     """Real tasks, one TaskGraph per graph number (dict order = first appearance).
     ran.s = 0: RELEASED.  Otherwise the task is scheduled with strategy ran.s, placed,
     started at its release time and stepped for ran.done; then either PREEMPTED and taken
     off its pool (ran.on = 0) or left RUNNING on the instance's pool ran.on.
+    Every time is built in the unit real["units"] names for it.
     Returns (workload, tasks in instance order)."""
     N = ns()
     tasks = []
     for ti, t in enumerate(inst["tasks"]):
-        strategies = [N.ExecutionStrategy(resources=_request(s["dem"]), batch_size=1, runtime=us(s["rt"])) for s in t["strats"]]
+        un = real["units"]["tasks"][ti]
+        strategies = [
+            N.ExecutionStrategy(resources=_request(s["dem"]), batch_size=1, runtime=et(s["rt"], un["rt"][si]))
+            for si, s in enumerate(t["strats"])
+        ]
         prof = N.WorkProfile(name=f"t{ti}_p", execution_strategies=N.ExecutionStrategies(strategies))
         task = N.Task(
             name=f"t{ti}", task_graph=f"g{t['graph']}", job=N.Job(name=f"t{ti}", profile=prof), profile=prof,
-            deadline=us(t["deadline"]), timestamp=0, release_time=us(t["release"]),
+            deadline=et(t["deadline"], un["deadline"]), timestamp=0, release_time=et(t["release"], un["release"]),
         )
         task.release()
         ran = t.get("ran", FRESH)
@@ -463,16 +630,16 @@ def build_workload(inst, pools):
             else:  # it ran somewhere else before it was preempted
                 worker = N.Worker(name=f"elsewhere{ti}", resources=N.Resources(resource_vector={N.Resource(name=RES_NAMES[k]): q for k, q in enumerate(t["strats"][ran["s"] - 1]["dem"]) if q > 0}))
                 pool = N.WorkerPool(name=f"elsewhere{ti}", workers=[worker])
-            t0 = us(t["release"])
+            t0 = et(t["release"], un["release"])
             task.schedule(t0, N.Placement.create_task_placement(task=task, placement_time=t0, worker_pool_id=pool.id, execution_strategy=st))
             if not pool.place_task(task, execution_strategy=st):
                 raise tlc.TLCMachineryError(f"could not place the running task {ti} of {inst}")
             task.start(t0)
             if ran["done"]:  # (Worker.step would also step the other tasks of the pool)
-                if task.step(t0, us(ran["done"])):
+                if task.step(t0, et(ran["done"], un["done"])):
                     raise tlc.TLCMachineryError(f"task {ti} finished while it was being prepared: {inst}")
             if not ran["on"]:
-                end = us(t["release"] + ran["done"])
+                end = et(t["release"] + ran["done"], un["end"])
                 task.preempt(end)
                 pool.remove_task(end, task)
         tasks.append(task)
@@ -484,15 +651,26 @@ def build_workload(inst, pools):
     return N.Workload.from_task_graphs(tgs), tasks
 
 
-def realize(kind, inst):
-    """Run the real scheduler on the instance.  Returns (inst as offered, ans, before,
-    after, remaining times read from the real tasks, info)."""
+def realize(kind, inst, real=None):
+    """Run the real scheduler on the instance, built as `real` says (None: microseconds, one
+    resource instance per name).  Returns (inst as offered, ans, before, after, remaining times
+    read from the real tasks, info); info["real"] / ["seen"] / ["listed"]: the realisation (in
+    offer order) and what the real objects carry."""
     N = ns()
     nres = len(inst["pools"][0]["av"][0])
     info = {}
-    pools = build_pools(inst)
-    workload, tasks = build_workload(inst, pools)
-    now = us(inst["now"])
+    real = real or default_realisation(inst)
+    if "occ" not in real:
+        real = dict(real, occ=_occupied(inst, real["split"]))
+    try:
+        pools = build_pools(inst, real)
+        workload, tasks = build_workload(inst, pools, real)
+    except tlc.TLCMachineryError as ex:
+        # the state the instance describes could not be reached through the real API: no call, nothing
+        # to judge.  A machinery failure at the end of the run unless other calls show a violation.
+        info["could_not_build"] = str(ex)[:400]
+        return None, None, None, None, None, info
+    now = et(inst["now"], real["units"]["now"])
     pre = bool(inst.get("preemptive"))
     wps = N.WorkerPools(pools)
     offered = workload.get_schedulable_tasks(time=now, preemption=pre, worker_pools=wps)
@@ -505,11 +683,26 @@ def realize(kind, inst):
         # describe the instance in the order the code offers it
         info["offer_reordered"] = perm
         inst = dict(inst, tasks=[inst["tasks"][i] for i in perm])
+        real = dict(real, units=dict(real["units"], tasks=[real["units"]["tasks"][i] for i in perm]))
         tasks = [tasks[i] for i in perm]
         idx = {id(t): i for i, t in enumerate(tasks)}
     pool_ix = {p.id: i + 1 for i, p in enumerate(pools)}
     before = observe(pools, nres)
     remaining = [t.remaining_time.to(N.EventTime.Unit.US).time for t in tasks]
+    extra = {
+        "real": real,
+        "listed": listed(pools, nres),
+        "seen": {
+            "now": _nu(now),
+            "tasks": [
+                {
+                    "deadline": _nu(t.deadline), "release": _nu(t.release_time), "remaining": _nu(t.remaining_time),
+                    "rt": [_nu(s.runtime) for s in t.available_execution_strategies],
+                }
+                for t in tasks
+            ],
+        },
+    }
     order, place = [], [{"placed": False, "pool": 0, "strat": 0} for _ in tasks]
     seen = set()
     try:
@@ -545,6 +738,7 @@ def realize(kind, inst):
         info["raised"] = f"{type(ex).__name__}: {ex}"[:300]
         order, place = [], [{"placed": False, "pool": 0, "strat": 0} for _ in tasks]
     after = observe(pools, nres)
+    info["_extra"] = extra
     return inst, {"order": order, "place": place}, before, after, remaining, info
 
 
@@ -557,17 +751,21 @@ def normalize(inst):
 
 
 def make_records(items, id0=0):
-    """items: [(kind, inst, bound?)] -> records, skipped infos"""
+    """items: [(kind, inst, bound?, realisation or None)] -> records, skipped infos"""
     recs, infos = [], []
-    for k, (kind, inst, bound) in enumerate(items):
+    for k, item in enumerate(items):
+        kind, inst, bound = item[:3]
+        real = item[3] if len(item) > 3 else None
         inst = normalize(inst)
-        inst2, ans, before, after, remaining, info = realize(kind, inst)
+        inst2, ans, before, after, remaining, info = realize(kind, inst, real)
         if inst2 is None:
-            infos.append({"kind": kind, "inst": inst, **info})
+            infos.append({"kind": kind, "inst": inst, "real": real, **info})
             continue
+        extra = info.pop("_extra")
         rec = {
             "id": id0 + k, "kind": kind, "inst": inst2, "ans": ans,
             "bound": bool(bound) and "offer_reordered" not in info, "before": before, "after": after, "remaining": remaining,
+            **extra,
         }
         if info:
             rec["_info"] = info
@@ -623,8 +821,12 @@ def _plain(v):
     return v
 
 
-def inst_key(kind, inst):
-    return kind + ":" + json.dumps(inst, sort_keys=True, separators=(",", ":"))
+def inst_key(kind, inst, real=None):
+    """identifies the failing input: policy, instance and (unless it is the plain one) its realisation"""
+    key = kind + ":" + json.dumps(inst, sort_keys=True, separators=(",", ":"))
+    if real and real != default_realisation(inst):
+        key += "|" + json.dumps(real, sort_keys=True, separators=(",", ":"))
+    return key
 
 
 def inst_size(inst):
@@ -640,7 +842,9 @@ def judge(part, recs, fails, phase, gating=True):
         if harness:
             raise tlc.TLCMachineryError(f"{phase}: record {rid} fails {harness}: {json.dumps(rec)[:1500]}")
         detail = {
-            "phase": phase, "kind": rec["kind"], "inst": rec["inst"], "call": f"{rec['kind']}Scheduler.schedule(now={rec['inst']['now']})",
+            "phase": phase, "kind": rec["kind"], "inst": rec["inst"], "real": rec["real"],
+            "call": f"{rec['kind']}Scheduler.schedule(now={rec['seen']['now']['n']}{rec['seen']['now']['u'].lower()})",
+            "seen": rec["seen"], "listed": rec["listed"],
             "got": rec["ans"], "failed_clauses": sorted(cl), "expected": _plain(cl.get(GATING) or cl.get("C13.plan_eq")),
             "info": rec.get("_info", {}),
         }
@@ -672,8 +876,9 @@ def _records_job(phase, tag, b, items, id0, gating=True):
     t0 = time.time()
     recs, skipped = make_records(items, id0)
     part["real_s"] = time.time() - t0
-    part["skipped"] = skipped[:3]
-    part["info"]["not_offered"] = len(skipped)
+    part["info"]["could_not_build"] = sum(1 for x in skipped if "could_not_build" in x)
+    part["info"]["not_offered"] = len(skipped) - part["info"]["could_not_build"]
+    part["skipped"] = [x for x in skipped if "could_not_build" in x][:1] + [x for x in skipped if "could_not_build" not in x][:2]
     fails, st, wall = check_records(recs, b)
     part["stats"] = list(st)
     part["n"] = len(recs)
@@ -729,12 +934,15 @@ def absorb_records(res, phase, outs):
         e["count"] += n["count"]
         e["samples"] = (e["samples"] + n["samples"])[:2]
     res.samples += tot["samples"][:3]
-    if tot["skipped"]:
-        res.notes.append(f"{phase}: {tot['info'].get('not_offered', 0)} calls could not be judged (tasks not offered by get_schedulable_tasks, or a placement naming a pool / strategy outside the instance; C18 / C10 territory), e.g. {tot['skipped'][0]}")
+    if tot["info"].get("could_not_build"):
+        first = next(x for x in tot["skipped"] if "could_not_build" in x)
+        res.notes.append(f"{phase}: {tot['info']['could_not_build']} instances could not be built on the real objects (not judged), e.g. {json.dumps(first)[:1500]}")
+    if tot["info"].get("not_offered"):
+        res.notes.append(f"{phase}: {tot['info'].get('not_offered', 0)} calls could not be judged (tasks not offered by get_schedulable_tasks, or a placement naming a pool / strategy outside the instance; C18 / C10 territory), e.g. {next((x for x in tot['skipped'] if 'could_not_build' not in x), None)}")
     # smallest failing instances first, one violation per distinct input
     seen = set()
     for d in sorted(tot["viol"], key=lambda d: inst_size(d["inst"])):
-        k = inst_key(d["kind"], d["inst"])
+        k = inst_key(d["kind"], d["inst"], d.get("real"))
         if k in seen:
             continue
         seen.add(k)
@@ -751,27 +959,55 @@ def absorb_records(res, phase, outs):
 
 
 def run_jobs(jobs, procs):
-    """jobs: [(cost, fn, args)]; most expensive first.  Returns results in the given order."""
+    """jobs: [(cost, fn, args)]; most expensive first.  Returns results in the given order.
+    (common.parallel with a worker initializer, see _worker_init.)"""
     order = sorted(range(len(jobs)), key=lambda i: -jobs[i][0])
-    outs = parallel(_dispatch, [(jobs[i][1].__name__, jobs[i][2]) for i in order], procs=procs)
+    calls = [(jobs[i][1].__name__, jobs[i][2]) for i in order]
+    if len(calls) <= 1:
+        outs = [_dispatch(c) for c in calls]
+    else:
+        with mp.get_context("fork").Pool(min(procs, len(calls)), initializer=_worker_init) as pool:
+            outs = pool.map(_dispatch, calls, chunksize=1)
     res = [None] * len(jobs)
     for i, o in zip(order, outs):
         res[i] = o
     return res
 
 
-def _dispatch(name, args):
-    return globals()[name](*args)
+def _worker_init():
+    """run.py's SIGTERM handler (raise SystemExit) is inherited through fork.  Pool.terminate()
+    keeps the task queue's lock and SIGTERMs the idle workers: with a Python-level handler a
+    worker whose signal is taken by another (BLAS) thread sleeps on that lock forever and the
+    parent waits for it.  Idle workers die the default way; the handler is armed while a job runs."""
+    signal.signal(signal.SIGTERM, signal.SIG_DFL)
+
+
+def _job_killed(signum, frame):
+    raise SystemExit(2)  # unwinding removes the scratch directories and the TLC child
+
+
+def _dispatch(call):
+    name, args = call
+    in_worker = mp.current_process().name != "MainProcess"
+    if in_worker:
+        signal.signal(signal.SIGTERM, _job_killed)
+    try:
+        return globals()[name](*args)
+    finally:
+        if in_worker:
+            signal.signal(signal.SIGTERM, signal.SIG_DFL)
 
 
 # ---------------------------------------------------------------------------
 # T: larger random instances
 
 
-def random_instance(r, max_tasks=8, workers=(1,), nres=None, kind="EDF", partial=True):
+def random_instance(r, max_tasks=8, workers=(1,), nres=None, kind="EDF", partial=True, scale=None):
     """<= max_tasks tasks, ties, several strategies, 1-4 pools.  With `partial`, a third of
     the instances contain PREEMPTED tasks (remaining time below the slowest strategy's
-    runtime) and a quarter of the EDF / LSF ones are preemptive with RUNNING tasks."""
+    runtime) and a quarter of the EDF / LSF ones are preemptive with RUNNING tasks.
+    Times: small numbers times `scale` microseconds (None: 1 / 1000 / 10^6, seeded), half of
+    the scaled instances with values off the grid (scale_instance)."""
     nres = nres or r.choice((1, 2, 2, 2))
     now = r.randint(2, 5)
     pre = partial and kind != "FIFO" and workers == (1,) and r.random() < 0.25
@@ -821,7 +1057,11 @@ def random_instance(r, max_tasks=8, workers=(1,), nres=None, kind="EDF", partial
                             break
         # the running tasks are offered last, pool by pool
         tasks = [t for t in tasks if not t["ran"]["on"]] + sorted(running, key=lambda t: t["ran"]["on"])
-    return {"now": now, "preemptive": pre, "tasks": tasks, "pools": pools}
+    inst = {"now": now, "preemptive": pre, "tasks": tasks, "pools": pools}
+    if scale is None:
+        scale = r.choice((1, MS, MS, MS, SEC, SEC))
+        return scale_instance(inst, scale, r if r.random() < 0.5 else None)
+    return scale_instance(inst, scale)
 
 
 # ---------------------------------------------------------------------------
@@ -847,7 +1087,7 @@ def explore_jobs(tier):
     b = explore_bound()
     jobs = [(3000, _enum_job, (f"x/{inv}/0", b, None, [inv])) for inv in ("CodedIsPlan", "CodedNoInversion", "CodedFeasible")]
     r = rng("c13-explore")
-    items = [(KINDS[i % 3], random_instance(r, 5, workers=(1, 2, 2), partial=False), False) for i in range(3000)]
+    items = [(KINDS[i % 3], random_instance(r, 5, workers=(1, 2, 2), partial=False, scale=1), False) for i in range(3000)]
     return jobs, record_jobs("X-multi-worker", [("random", NO_BOUND, items, False)], 1500)
 
 
@@ -896,8 +1136,11 @@ def run(tier: str) -> CheckResult:
     q = tier == "quick"
     procs = 18 if q else 16
     res.assumptions = [
-        "gating instances have single-worker pools whose worker owns one resource instance per name; demands use the "
-        "wildcard id ('any'); Greedy!VectorModelOK ties this vector model to LedgerOps (FitsEach = CanAllocMulti = pointwise >=)",
+        "gating instances have single-worker pools whose worker lists one or two resource instances per name; demands use the "
+        "wildcard id ('any'); Greedy!VectorModelOK / VectorModelSplitOK tie the vector model (one quantity per name) to "
+        "LedgerOps (FitsEach = CanAllocMulti = pointwise >= on the sums per name, before and after an allocation)",
+        "all instance times are microseconds; the real objects carry each time in a unit (US / MS / S) that divides it, chosen "
+        "per field (seeded); Greedy!RealisationOK converts what is read back (EventTime.time, .unit) to the instance's values",
         "tasks are RELEASED with release <= now; the offer order is what Workload.get_schedulable_tasks returns (read back "
         "from the real workload for every instance)",
         "task-graph names are g<digit>, so string order equals the numeric order the spec uses in EDF's secondary key",
@@ -925,15 +1168,19 @@ def run(tier: str) -> CheckResult:
             insts = sample_bound(b, {"fit": 500, "pre": 300, "lsf": 800}.get(tag, 700), rng(f"c13-R-{tag}"))
         else:
             insts = list(enumerate_bound(b))
-        r_specs.append((tag, b, [(kind, i, True) for i in insts for kind in b["Kinds"]], True))
+        rr = rng(f"c13-real-{tag}")
+        r_specs.append((tag, b, [(kind, i, True, realisation(i, rr)) for i in insts for kind in b["Kinds"]], True))
     for tag, b in large.items():
         insts = sample_bound(b, int(10000 * scale), rng(f"c13-RL-{tag}"))
-        r_specs.append((f"large-{tag}", b, [(kind, i, True) for i in insts for kind in b["Kinds"]], True))
+        rr = rng(f"c13-real-large-{tag}")
+        r_specs.append((f"large-{tag}", b, [(kind, i, True, realisation(i, rr)) for i in insts for kind in b["Kinds"]], True))
     r_jobs = record_jobs("R", r_specs if "R" in phases else [], 2000 if q else 4000)
     res.extra["R_instances"] = sum(len(sp[2]) // len(sp[1]["Kinds"]) for sp in r_specs)
     # ---- T
     r = rng("c13-T")
+    rr = rng("c13-real-T")
     items = [(KINDS[i % 3], random_instance(r, kind=KINDS[i % 3]), False) for i in range(1200 if q else int(40000 * scale))]
+    items = [(kind, i, bound, realisation(i, rr)) for kind, i, bound in items]
     t_jobs = record_jobs("T", [("random", NO_BOUND, items, True)] if "T" in phases else [], 1200 if q else 4000)
     # ---- X
     xe_jobs, xr_jobs = ([], []) if q or "X" not in phases else explore_jobs(tier)
@@ -958,6 +1205,25 @@ def run(tier: str) -> CheckResult:
     absorb_records(res, "T", parts[2])
     if xe_jobs:
         absorb_explore(res, parts[3], parts[4])
+    # the realisation classes of round 4: counted by Greedy!UnitStats, per slice (edf / fifo / lsf are
+    # single-policy slices) - a slice without a record that tells a unit-blind policy apart is vacuous
+    summary = {}
+    for phase, ev in res.extra.get("records", {}).items():
+        if phase.startswith("X"):
+            continue
+        for tag, st in ev["by_slice"].items():
+            summary[f"{phase}/{tag}"] = {"records": st["records"], **{k: st[k] for k in RECORD_ONLY}}
+    res.extra["realisation"] = {
+        "time_units": "every time of the real objects in US / MS / S (a unit that divides it), chosen per field",
+        "resource_instances": "a worker lists a name as one instance or as two (ids c0, c1)",
+        "by_slice": summary,
+    }
+    vacuous = [f"{t}:{k}" for t, st in summary.items() for k in RECORD_ONLY if st["records"] >= 300 and not st[k]]
+    if vacuous:
+        raise tlc.TLCMachineryError(f"realisation classes not exercised: {vacuous}")
+    unbuilt = {ph: ev["harness_info"]["could_not_build"] for ph, ev in res.extra.get("records", {}).items() if ev["harness_info"].get("could_not_build")}
+    if unbuilt and not res.violations:
+        raise tlc.TLCMachineryError(f"instances that could not be built on the real objects: {unbuilt}; see the notes of the evidence")
     rs = res.extra.get("resync", {})
     if rs:
         res.notes.append(
@@ -976,7 +1242,7 @@ def replay(d) -> int:
     det = d.get("detail", {})
     if not det.get("inst") or not det.get("kind"):
         return 0
-    recs, _ = make_records([(det["kind"], det["inst"], False)], 0)
+    recs, _ = make_records([(det["kind"], det["inst"], False, det.get("real"))], 0)
     fails, _, _ = check_records(recs, NO_BOUND)
     print(json.dumps({"answer_now": recs[0]["ans"], "failed_clauses_now": _plain(fails.get(0, {}))}, indent=1, default=str))
     return 1 if GATING in fails.get(0, {}) else 0
